@@ -246,8 +246,10 @@ func c09Inject(t *rapid.T) (c09Input, bool) {
 		in.Header, inj.Grammar, inj.Site = "both", true, "model header followed by module header"
 	case "no-header":
 		in.Header, inj.Grammar, inj.Site = "neither", true, "no header"
-		if len(m.Types)+len(m.Conds) == 0 {
-			m.Types = append(m.Types, gen.TypeDef{Name: "doc"})
+		// the boundary: nothing but blank lines and comments (or nothing at all) has no header either
+		if rapid.IntRange(0, 2).Draw(t, "emptyBody") == 0 {
+			m.Types, m.Conds = nil, nil
+			inj.Site = "no header, empty body"
 		}
 	case "container-bare", "container-nested":
 		ci := ensureCond()
